@@ -17,6 +17,7 @@ fn main() {
         let v: serde_json::Value = serde_json::from_str(&std::fs::read_to_string(&args[3]).expect("replay file")).expect("json");
         let code = match v["replay"]["engine"].as_str() {
             Some("e1") => e1::replay(&v),
+            Some("c02") => lanes::c02::replay(&v),
             Some("c03") => lanes::c03::replay(&v),
             Some("c06") => lanes::c06::replay(&v),
             Some("c07") => lanes::c07::replay(&v),
@@ -41,6 +42,7 @@ fn main() {
     };
     let code = match prop {
         "C01" | "C13" | "C04" | "C05" | "C10" | "C12" | "C16" => e1::run(prop, tier),
+        "C02" => lanes::c02::run(tier),
         "C03" => lanes::c03::run(tier),
         "C06" => lanes::c06::run(tier),
         "C07" => lanes::c07::run(tier),
